@@ -75,6 +75,12 @@ class InstBundleElabPass(ElabPass):
                     new_inst.connect(portname, _bundle_ref(conn, signame))
 
             elif isinstance(conn, AnonymousBundle):
+                # Every member of the Anonymous Bundle must name a Signal of the paired Bundle
+                extra = [n for n in conn._namespace if n not in signal_names_to_instances]
+                if extra:
+                    msg = f"Invalid connection to `{portname}` on Instance Bundle `{instbundle.name}`: "
+                    msg += f"{instbundle.bundle} has no Signals named `{extra}`"
+                    self.fail(msg)
                 for signame, new_inst in signal_names_to_instances.items():
                     new_inst.connect(portname, conn.get(signame))
 
